@@ -104,6 +104,8 @@ class GLRParser(Parser):
         self._tokens_ahead = []
         self._last_shifted_heads = []
         self._for_shifter = []
+        # Ordinal of the current frontier, i.e. the number of shift rounds done.
+        self._frontier = 0
 
         # We start with a single parser head in state 0.
         start_head = GSSNode(
@@ -428,6 +430,12 @@ class GLRParser(Parser):
 
         self._active_heads = {}
 
+        # All heads shifted in this round form the next frontier. The frontier
+        # can't be calculated from the shifting head as, due to lexical
+        # ambiguity, heads left from previous rounds may shift in this round
+        # and nodes of different rounds would get the same id.
+        self._frontier += 1
+
         # Due to lexical ambiguity heads might be at different positions.
         # We must order heads by position before shift to process them in
         # the right order. Only shift heads with minimal position during
@@ -479,7 +487,7 @@ class GLRParser(Parser):
                     head.input_str,
                     to_state,
                     end_position,
-                    head.frontier + 1,
+                    self._frontier,
                     head.extra,
                     ambiguity=1,
                     layout_content=head.layout_content_ahead,
